@@ -34,6 +34,8 @@ TraceCI ==
      IN Report(e, Failing({
           <<"C13.raised", e.exc = "">>,
           <<"C13.shape", e.exc # "" \/ e.shape_ok>>,
+          (* the caller's replicate array (possibly read-only) is not modified             *)
+          <<"C13.replicates_untouched", e.exc # "" \/ ~("theta_untouched" \in DOMAIN e) \/ e.theta_untouched>>,
           <<"C13.quantile_formula", ~ok \/ m # "quantile" \/ \A a \in A :
                LET q == QuantileCI(th, a)  r == e.outq[K(a)] IN
                r[1][2] > 0 /\ r[2][2] > 0 /\ REq(r[1], q[1]) /\ REq(r[2], q[2])>>,
